@@ -174,7 +174,7 @@ func (c *Ctx) Check(oracle string, idx ...int) bool {
 	c.rep.FailureCount++
 	c.rep.ClassTally[class]++
 	// keep all unclassified failures up to a cap, and a few per class
-	if (class == "" && len(c.rep.Failures) < 200) || (class != "" && c.rep.ClassTally[class] <= 40) {
+	if (class == "" && c.rep.ClassTally[""] <= 200) || (class != "" && c.rep.ClassTally[class] <= 40) {
 		c.rep.Failures = append(c.rep.Failures, Failure{oracle, detail, idx, ls, rs, class})
 	}
 	return false
